@@ -44,12 +44,25 @@ def variant_of(guards):
 
 
 def has_guard(guards, callee_re, truth, mention=None):
+    """mention: a field/variable name, or a predicate over a term (structural identification)"""
     for s, vals, term in guards:
         atom, tr = mir.cond_atoms(term, vals)
         if atom[0] == "call" and re.search(callee_re, atom[1]) and tr is truth:
-            if mention is None or any(mir.mentions(a, mention) for a in atom[2]):
+            if mention is None or any((mention(a) if callable(mention) else mir.mentions(a, mention)) for a in atom[2]):
                 return True
     return False
+
+
+def of_type(body, ty_re):
+    """predicate: the term mentions a variable / parameter whose type matches (captured variables through their owner)"""
+    def pred(t):
+        for x in mir.subterms(t):
+            if x[0] in ("var", "param") and len(x) > 2 and re.search(ty_re, mir.short_type(body.locals[x[2]])):
+                return True
+            if x[0] == "upvar" and re.search(ty_re, mir.short_type(body.upvar_type(x[1]))):
+                return True
+        return False
+    return pred
 
 
 def run(P, C, tier):
@@ -108,15 +121,18 @@ def run(P, C, tier):
             ok = var == UNSCOPED[meth]
             detail = "unscoped accessor %s allowed in arm %s only (found in %s)" % (meth, UNSCOPED[meth], var)
             if meth == "get_rooms_for_peer":
-                k_ok = has_guard(g, r"Vec::is_empty$", False, "key") and has_guard(g, r"Atomic.*::load$|AtomicBool::load$", True, "conn_ready")
-                a_ok = mir.mentions(args[1], "key")
-                # key must be the locked authenticated key of this connection
-                kdefs = [term_str(b.local_term(l, expand_vars=True)) for l, n in b.names.items() if n == "key"]
-                src_ok = any("verifying_key" in d and "lock" in d for d in kdefs)
+                # the authenticated key: the guard obtained by locking the connection's key cell (Arc<Mutex<Vec<u8>>>)
+                KEY = of_type(b, r"^MutexGuard<'?\w*,? ?Vec<u8>>$")
+                READY = of_type(b, r"Arc<Atomic(Bool|<bool>)>$")
+                k_ok = has_guard(g, r"Vec::is_empty$", False, KEY) and has_guard(g, r"Atomic.*::load$|AtomicBool::load$", True, READY)
+                a_ok = KEY(args[1])
+                kvars = [leaf for l, n, lty, leaf in b.named_locals() if re.search(r"^MutexGuard<'?\w*,? ?Vec<u8>>$", mir.short_type(lty))]
+                kdefs = [b.local_term(kv[2], expand_vars=True) for kv in kvars]
+                src_ok = bool(kdefs) and all(mir.has_call(d, r"Mutex.*::lock$") is not None and of_type(b, r"Arc<Mutex<Vec<u8>>>$")(d) for d in kdefs)
                 ok = ok and k_ok and a_ok and src_ok
-                detail += "; guards !key.is_empty && conn_ready: %s; argument is the authenticated key: %s (%s)" % (k_ok, a_ok and src_ok, kdefs[:1])
+                detail += "; guards !key.is_empty && conn_ready: %s; argument is the authenticated key: %s" % (k_ok, a_ok and src_ok)
             if meth == "get_peer_node":
-                own = mir.field_path(args[1]).endswith("peer.verifying_key")
+                own = b.cpath(args[1]) == "‹RemotePeerHandle›.verifying_key"
                 ok = ok and own
                 detail += "; argument is the instance's own key: %s" % own
             C.ob("R1", key, ok, site, detail)
@@ -142,10 +158,10 @@ def run(P, C, tier):
             ok = contains_guard(b, g) is not None
             why = "membership guard"
         elif var == "RoomList":
-            ok = has_guard(g, r"Vec::is_empty$", False, "key") and has_guard(g, r"::load$", True, "conn_ready")
+            ok = has_guard(g, r"Vec::is_empty$", False, of_type(b, r"^MutexGuard<'?\w*,? ?Vec<u8>>$")) and has_guard(g, r"::load$", True, of_type(b, r"Arc<Atomic(Bool|<bool>)>$"))
             why = "authenticated-key guard"
         elif var == "HardwareFingerprint":
-            ok = has_guard(g, r"PartialEq.*::eq$|::eq$", True, "key") and has_guard(g, r"Vec::is_empty$", False, "key")
+            ok = has_guard(g, r"PartialEq.*::eq$|::eq$", True, of_type(b, r"^MutexGuard<'?\w*,? ?Vec<u8>>$")) and has_guard(g, r"Vec::is_empty$", False, of_type(b, r"^MutexGuard<'?\w*,? ?Vec<u8>>$"))
             why = "same-user guard"
         elif var == "ProveIdentity":
             ok = True
@@ -186,7 +202,8 @@ def run(P, C, tier):
         for fid in P.family(ab.id):
             fb = P.bodies[fid]
             for bi, t in fb.calls_to(re.escape(rb.id) + "$"):
-                if any(mir.field_path(a).split(".")[-1] == "room_id" for a in fb.call_args(bi)):
+                rooms_ = set(ab.find_locals(ty=r"^\[u8; 16\]$", arg=True)) | set(ab.find_locals(ty=r"^\[u8; 16\]$", param=True))
+                if any(mir.field_path(a).split(".")[-1] in rooms_ or (mir.strip(a)[0] == "upvar" and mir.strip(a)[1] in rooms_) for a in fb.call_args(bi)):
                     fwd = True
         C.ob("R3", "forward:%s" % acc, fwd, ab.loc(), "%s passes its room_id to %s" % (acc, rowfn))
         if how == "sql":
@@ -211,21 +228,29 @@ def run(P, C, tier):
                         params = params[1]
                     if params[0] == "aggr" and pos < len(params[4]):
                         bound = params[4][pos]
-                ok = bound is not None and mir.field_path(bound).split(".")[-1] == "room_id"
+                ok = bound is not None and mir.strip(bound)[0] == "param" and re.search(r"^\[u8; 16\]$", mir.short_type(rb.root_type(mir.strip(bound)))) is not None
                 detail = "statement constrains room with placeholder #%d bound to %s" % (pos + 1, term_str(bound) if bound else "?")
             C.ob("R3", "constraint:%s" % rowfn, ok, rb.loc(), detail)
         else:
             # code filter: every push of a row into the result is dominated by rid.eq(room_id)==true and Some(room)
-            pushes = [(bi, t) for bi, t in rb.calls_to(r"Vec::push$") if mir.mentions(rb.call_args(bi)[1], "node")]
+            pushes = [(bi, t) for bi, t in rb.calls_to(r"Vec::push$") if re.search(r"node::Node$", rb.root_type(mir.strip(rb.call_args(bi)[1])))]
+            ROOMP = of_type(rb, r"^\[u8; 16\]$")          # the room parameter (&Uid)
+            DBROOM = of_type(rb, r"^Option<\[u8; 16\]>$")   # the row's own room as read from storage
             ok = bool(pushes)
             for bi, t in pushes:
-                g = rb.guards(bi)
+                g = rb.guards(bi, expand_vars=False)
                 eq = False
-                for s, vals, term in g:
+                for s_, vals, term in g:
                     atom, truth = mir.cond_atoms(term, vals)
-                    if atom[0] == "call" and atom[1].endswith("::eq") and truth is True and mir.mentions(atom, "room_id") and mir.mentions(atom, "rid"):
-                        eq = True
-                some = any((mir.discr_variants(term, vals) or (None, []))[1] == ["Some"] and mir.mentions(term, "db_room_id") for s, vals, term in g)
+                    if atom[0] == "call" and atom[1].endswith("::eq") and truth is True and len(atom[2]) == 2:
+                        x, y = atom[2]
+
+                        def from_row(z):
+                            z = mir.strip(z)
+                            return DBROOM(z) or (z[0] == "var" and any(DBROOM(d) for d in rb.var_defs(z)))
+                        if (from_row(x) and mir.strip(y)[0] == "param" and ROOMP(y)) or (from_row(y) and mir.strip(x)[0] == "param" and ROOMP(x)):
+                            eq = True
+                some = any((mir.discr_variants(term, vals) or (None, []))[1] == ["Some"] and DBROOM(term) for s_, vals, term in g)
                 ok = ok and eq and some
             C.ob("R3", "constraint:%s" % rowfn, ok, rb.loc(), "rows pushed to the answer only under db_room_id==Some(rid) && rid.eq(room_id): %d push site(s)" % len(pushes))
     # ---- R4: who may extend the allowed set
@@ -261,7 +286,7 @@ def run(P, C, tier):
         ok = bool(dated) and bool(ins)
         for bi, t in ins:
             g = rfp.guards(bi)
-            ok = ok and has_guard(g, r"Room::is_user_valid_at$", True, "date")
+            ok = ok and has_guard(g, r"Room::is_user_valid_at$", True, lambda a: mir.strip(a)[0] == "param" and rfp.root_type(mir.strip(a)) == "i64")
         C.ob("R4", "rooms_for_peer:dated-membership", ok, rfp.loc(), "a room enters the result only under is_user_valid_at(key, date)==true")
         gsrv = P.body("GraphDatabaseService::get_rooms_for_peer")
         now = False
